@@ -357,13 +357,12 @@ def _routing(repo, rep):
     v = r.value
     site = f.qualname
     wh = L.where(f)
-    ok = isinstance(v, A.Alt) and v.test.replace(" ", "") in (
-        "notchar_escape",)
+    ok = L.decides_on(v, "not char_escape")
     rep.check(ok, "R02.2", site, "only an empty escape set is routed to the "
               "non-escaping conversion", construct="convert-text-guard",
               where=wh, detail=A.show(v, limit=1))
     if ok:
-        fr = v.b
+        fr = L.branch(v, "char_escape", True)
         frs = [w for w in A.walk(fr) if isinstance(w, A.Frag) and
                L.frag_find(w, "_T = __quote(_T, _Q, _E, _D, _M)")]
         rep.check(bool(frs), "R02.2", site,
@@ -619,8 +618,9 @@ def _classify(ret, st, conds, excepts, sanitized, root, params, fn, retnode):
     if ret == ("const", None):
         return "none", ""
     if default and ret == ("param", default):
-        ok = any(c.replace(" ", "") == "%sis%s" % (tgt, params[4]) and v
-                 for c, v, _ in conds) if len(params) > 4 else False
+        ok = L.cond_holds([(c, v) for c, v, _ in conds],
+                          "%s is %s" % (tgt, params[4]), True) \
+            if len(params) > 4 else False
         return ("default" if ok else "BAD-default-unguarded"), ""
     # str(target) for exact int/float
     if isinstance(retnode, ast.Call) and src(retnode.func) == "str" and \
@@ -643,9 +643,8 @@ def _classify(ret, st, conds, excepts, sanitized, root, params, fn, retnode):
             return "precheck-clean", ""
     if "TypeError" in excepts:
         return "not-a-string", "regex search raised TypeError: not a str"
-    for c, v, val in conds:
-        if not v and c.replace(" ", "") == "%sisnotNone" % tgt:
-            return "none", ""
+    if L.cond_holds([(c, v) for c, v, _ in conds], "%s is None" % tgt, True):
+        return "none", ""
     chars = []
     for c, e, extra in sanitized:
         chars.append((c, e, extra))
